@@ -872,11 +872,21 @@ pub fn run_c09(o: &crate::Opts) {
     let mut kinds: std::collections::BTreeMap<String, u64> = Default::default();
     let mut samples = Vec::new();
     let mut differs = 0u64;
+    if o.shard == 0 {
+        // corpus: the hand-over of standard input at `quit` (every delivery, both delimiters)
+        for t in directed_input_text_cases() {
+            let obs = run_text(&mut cap, &t);
+            *kinds.entry(format!("directed-text-session-stdin-shared:{}", obs.split(' ').next().unwrap_or(""))).or_default() += 1;
+            sink.put(&t.request(), &obs);
+        }
+    }
     for k in 0..per {
         if k % 4 == 3 {
-            let t = gen_text_case(&mut rng);
+            // one text session in three has a program that reads input: the script on standard
+            // input ends in `quit` + one delimiter and the program's input follows immediately
+            let (t, kind) = if k % 12 == 3 { (gen_input_text_case(&mut rng), "text-session-stdin-shared") } else { (gen_text_case(&mut rng), "text-session") };
             let obs = run_text(&mut cap, &t);
-            *kinds.entry(format!("text-session:{}", obs.split(' ').next().unwrap_or(""))).or_default() += 1;
+            *kinds.entry(format!("{}:{}", kind, obs.split(' ').next().unwrap_or(""))).or_default() += 1;
             sink.put(&t.request(), &obs);
             continue;
         }
@@ -1620,7 +1630,12 @@ const BAD_LINES: [&str; 14] = [
 pub struct TextCase {
     pub base: DbgCase,
     pub arg: Option<String>,
-    pub stdin: String,
+    /// everything the process finds on standard input: command text, then (after `cut` bytes)
+    /// the program's input — ONE stream, shared by the command reader and GETC / IN
+    pub stdin: Vec<u8>,
+    /// number of leading bytes of `stdin` that are command text (the driver parses these
+    /// beforehand for the pre-parsed debugger model; the on-demand model gets the whole stream)
+    pub cut: usize,
 }
 
 impl TextCase {
@@ -1641,9 +1656,10 @@ impl TextCase {
             s.push_str(&format!(" {} {:x}", hex(n.as_bytes()), k));
         }
         s.push_str(&format!(
-            " {} {}",
+            " {} {} {:x}",
             match &self.arg { Some(a) => format!("A{}", hex(a.as_bytes())), None => "N".to_string() },
-            hex(self.stdin.as_bytes())
+            hex(&self.stdin),
+            self.cut
         ));
         s
     }
@@ -1680,11 +1696,16 @@ impl TextCase {
         }
         let a = f.get(i)?;
         let arg = if *a == "N" { None } else { Some(String::from_utf8(unhex(&a[1..])?).ok()?) };
-        let stdin = String::from_utf8(unhex(f.get(i + 1)?)?).ok()?;
+        let stdin = unhex(f.get(i + 1)?)?;
+        let cut = match f.get(i + 2) {
+            Some(c) => usize::from_str_radix(c, 16).ok()?,
+            None => stdin.len(),
+        };
         Some(TextCase {
             base: DbgCase { tag: "T09", stack, fuel, inp: vec![], orig, words, breaks, labels, cmds: vec![], nm: false },
             arg,
             stdin,
+            cut,
         })
     }
 }
@@ -1712,7 +1733,7 @@ pub fn run_text(cap: &mut Capture, t: &TextCase) -> String {
     }
     let mut env = slot.unwrap();
     let shadow: Vec<u16> = env.verif_mem().to_vec();
-    cap.set_stdin(t.stdin.as_bytes());
+    cap.set_stdin(&t.stdin);
     lace::verif::set_fuel(Some(c.fuel));
     lace::verif::set_logging(true);
     cap.begin();
@@ -1799,7 +1820,144 @@ pub fn gen_text_case(rng: &mut Rng) -> TextCase {
         1 => (Some(join(rng, &lines)), String::new()),
         _ => (Some(join(rng, &lines[..cut])), join(rng, &lines[cut..])),
     };
-    TextCase { base, arg, stdin }
+    let stdin = stdin.into_bytes();
+    let cut = stdin.len();
+    TextCase { base, arg, stdin, cut }
+}
+
+/// Minimal witnesses for the hand-over of standard input: GETC, OUT, IN, HALT at x3000 with the
+/// program's input `AB` right behind `quit` and its one delimiter.
+pub fn directed_input_text_cases() -> Vec<TextCase> {
+    let words = vec![0xF020u16, 0xF021, 0xF023, 0xF025];
+    let mk = |arg: Option<&str>, script: &str, input: &[u8]| -> TextCase {
+        let mut stdin = script.as_bytes().to_vec();
+        let cut = stdin.len();
+        stdin.extend_from_slice(input);
+        TextCase {
+            base: DbgCase { tag: "T09", stack: false, fuel: 30_000, inp: vec![], orig: 0x3000, words: words.clone(), breaks: vec![], labels: vec![], cmds: vec![], nm: false },
+            arg: arg.map(|a| a.to_string()),
+            stdin,
+            cut,
+        }
+    };
+    vec![
+        mk(None, "quit;", b"AB"),
+        mk(None, "quit\n", b"AB"),
+        mk(None, "registers;q;", b"AB\n"),
+        mk(None, "registers\nbogus\n\nprint r0;quit;", b";B"),
+        mk(None, "break add x3002;break list\n quit \n", b"\nB"),
+        mk(None, "q;", b"quit\nAB"),
+        mk(None, "q\n", b"\xc3\xa9"),
+        mk(None, "q;", b"A"),
+        mk(Some("registers"), "quit;", b"AB"),
+        mk(Some("registers;"), "print r0\nquit\n", b"AB"),
+        mk(Some("registers;quit"), "", b"AB"),
+        mk(Some("quit\n"), "", b"AB"),
+    ]
+}
+
+/// An inspection / breakpoint command: reads or lists, never resumes, never touches the machine.
+pub fn rand_inspect(rng: &mut Rng, orig: u16, n: usize, labels: &[(String, usize)]) -> Cmd {
+    match rng.below(9) {
+        0 => Cmd::BreakAdd(rand_loc(rng, orig, n, labels)),
+        1 => Cmd::BreakRemove(rand_loc(rng, orig, n, labels)),
+        2 => Cmd::BreakList,
+        3 => Cmd::PrintReg(rng.below(8) as u8),
+        4 => Cmd::PrintMem(rand_loc(rng, orig, n, labels)),
+        5 => Cmd::Registers,
+        6 => Cmd::Assembly(rand_loc(rng, orig, n, labels)),
+        7 => Cmd::Help,
+        _ => Cmd::Echo(format!("m{}", rng.below(100))),
+    }
+}
+
+/// Text-level session with a program that READS INPUT (GETC / IN): standard input is one byte
+/// stream shared by the debugger's command reader and the program.  The script (inspection and
+/// breakpoint commands, rejected lines, blank lines — an instruction executed before `quit`
+/// would read the script text, DESIGN §13) ends in `quit` and ONE delimiter (`;` or newline),
+/// and the very next byte is the program's input.  `Lace.C09IO.quit_hands_over_stdin`.
+pub fn gen_input_text_case(rng: &mut Rng) -> TextCase {
+    let p = loop {
+        let p = pick_program(rng);
+        if p.words.iter().any(|w| *w == 0xF020 || *w == 0xF023) {
+            break p;
+        }
+    };
+    let n = p.words.len();
+    let mut base = decorate(rng, &p, "T09", vec![], 30_000);
+    let mut lines: Vec<String> = Vec::new();
+    for _ in 0..rng.below(8) {
+        if rng.chance(1, 6) {
+            lines.push((*rng.pick(&BAD_LINES)).to_string());
+        } else if rng.chance(1, 12) {
+            lines.push(" ".repeat(rng.below(3) as usize));
+        } else {
+            let c = rand_inspect(rng, p.orig, n, &base.labels);
+            if matches!(c, Cmd::Help) {
+                // the help text is free text: bracketed by echo markers, collapsed by `stderr_lines`
+                lines.push("echo @h".to_string());
+                lines.push(spell_cmd(rng, &c));
+                lines.push("echo @/h".to_string());
+            } else {
+                lines.push(spell_cmd(rng, &c));
+            }
+        }
+    }
+    let quit = spell_cmd(rng, &Cmd::Quit);
+    // the program's input: what the generator made for this program, sometimes starting with
+    // bytes that a greedy reader would swallow (more "commands", delimiters)
+    let mut input: Vec<u8> = Vec::new();
+    if rng.chance(1, 4) {
+        input.extend_from_slice(*rng.pick(&[&b"\n"[..], &b";"[..], &b"registers\n"[..], &b"quit;"[..], &b" "[..]]));
+    }
+    input.extend_from_slice(&p.inp);
+    base.inp = vec![];
+    let sep = |rng: &mut Rng| if rng.chance(1, 2) { ';' } else { '\n' };
+    // every line followed by one separator
+    let terminated = |rng: &mut Rng, ls: &[String]| -> String {
+        let mut s = String::new();
+        for l in ls {
+            s.push_str(l);
+            s.push(sep(rng));
+        }
+        s
+    };
+    let k = rng.below(lines.len() as u64 + 1) as usize;
+    match rng.below(4) {
+        // the whole script on standard input, in front of the program's input
+        0 | 1 => {
+            let mut s = terminated(rng, &lines);
+            s.push_str(&quit);
+            s.push(sep(rng));
+            let mut stdin = s.into_bytes();
+            let cut = stdin.len();
+            stdin.extend_from_slice(&input);
+            TextCase { base, arg: None, stdin, cut }
+        }
+        // split: the first lines through --command, the rest and `quit` on standard input
+        2 => {
+            let mut a = terminated(rng, &lines[..k]);
+            if !a.is_empty() && rng.chance(1, 2) {
+                a.pop(); // the argument need not end with a separator
+            }
+            let mut s = terminated(rng, &lines[k..]);
+            s.push_str(&quit);
+            s.push(sep(rng));
+            let mut stdin = s.into_bytes();
+            let cut = stdin.len();
+            stdin.extend_from_slice(&input);
+            TextCase { base, arg: Some(a), stdin, cut }
+        }
+        // everything, `quit` included, through --command: standard input is the program's alone
+        _ => {
+            let mut a = terminated(rng, &lines);
+            a.push_str(&quit);
+            if rng.chance(1, 2) {
+                a.push(sep(rng));
+            }
+            TextCase { base, arg: Some(a), stdin: input, cut: 0 }
+        }
+    }
 }
 
 /// Probe sessions written as text, with location spellings beyond 16 bits.
@@ -1838,5 +1996,7 @@ pub fn gen_wild_text_case(rng: &mut Rng) -> TextCase {
     lines.push("exit".into());
     let script = lines.join(if rng.chance(1, 2) { "\n" } else { ";" });
     let (arg, stdin) = if rng.chance(1, 2) { (Some(script), String::new()) } else { (None, script) };
-    TextCase { base, arg, stdin }
+    let stdin = stdin.into_bytes();
+    let cut = stdin.len();
+    TextCase { base, arg, stdin, cut }
 }
